@@ -607,7 +607,8 @@ def search_lines(vocab):
     stage at the first and at a later pipeline position, directly and inside a compound clause, with a sort document"""
     vals = ['"s@t.co"', '5', 'true', 'null', '{"$date":"2020-01-02T03:04:05.006Z"}', '{"$oid":"0123456789abcdef01234567"}',
             '{"$binary":{"base64":"QUJDREVGRw==","subType":"04"}}', '["a@b.co","x"]', '{"wildcard":"na*"}', '{"value":"f","multi":"m"}',
-            '[{"$date":"2020-01-02T03:04:05.006Z"},7]', '{"$numberLong":"77"}', '{"$uuid":"a657a630-1111-0000-0000-d01de73c37e7"}']
+            '[{"$date":"2020-01-02T03:04:05.006Z"},7]', '{"$numberLong":"77"}', '{"$uuid":"a657a630-1111-0000-0000-d01de73c37e7"}',
+            '[[{"title":"s@t.co","n":5}],["$ref",{"k":"v"}]]', '[[1,[2,{"b":{"$date":"2020-01-02T03:04:05.006Z"}}]],[]]', '{"doc":{"k":[[{"deep":"x"}]]}}']
     args = ['value', 'query', 'path', 'origin', 'gte', 'lt', 'like', 'defaultPath', 'pivot']
     bodies = []
     for oi, op in enumerate(vocab.get('search_ops', [])):
